@@ -3,7 +3,7 @@
 CFG = dict(
     tests=["TestC07"],
     pkg="c06",
-    n_quick=120, n_thorough=1500, shards_thorough=6,
+    n_quick=400, n_thorough=1500, shards_thorough=6,
     rule="same generator as C06 with the operation mix shifted towards ShouldProcess / PreProcess / FilterResults / FilterProposals and the "
          "observation hooks (AddFromStaging, AddLogProposals, AddConditionalProposals over a real result / metadata store and the real "
          "coordinator); every boundary life-cycle (accept -> perform/stale/reorg/insufficient funds -> re-propose -> expiry, both upkeep types, "
